@@ -76,8 +76,8 @@ open_("C17", "D37", "C17/remap-changed-log", [],
       "c17.file_name_containing_base_commit_sha_field", ["path:json-field"], affects=["C05"])
 fixed("C17", "D40", "^fix: a path line consisting of a single quote", "arbitrary note-like text containing a line that is a single double-quote character panicked deserialize_from_string (slice 1..0 in parse_attestation_section)", "c17.single_quote_path_line")
 open_("C18", "D41", "C18/proxied-argv-differs", [],
-      "command line: `git st` with alias.st='status -s' => the argv recorded by the git stand-in for the proxied call is `status -s`, not the user's `st` (the alias expansion computed to choose hooks is re-emitted); outcome is the same because git would expand it identically",
-      "c18.alias_is_handed_to_git_expanded", ["proxied_alias_expansion"], affects=[])
+      "command line: `git st` with alias.st='status -s' => the argv recorded by the git stand-in for the proxied call is `status -s`, not the user's `st` (the alias expansion computed to choose hooks is re-emitted). Observable consequence: for an alias whose value starts with an environment-changing global option (alias.np='--no-pager log', alias.stc='-C dir status') plain git refuses with `alias 'np' changes environment variables` (exit 128) while the proxy runs the expansion and exits 0",
+      "c18.alias_is_handed_to_git_expanded", ["proxied_alias_expansion", "tmpl:np", "tmpl:stc"], affects=["C06"])
 open_("C18", "D42", "C06/exit", ["C06/stdout", "C18/proxied-argv-differs"],
       "command line: `git -- status` => plain git fails with `unknown option: --` (exit 129); through the proxy the top-level `--` is dropped and `status` runs (exit 0, status output)",
       "c18.top_level_double_dash_is_swallowed", ["tmpl:--"], affects=["C06"])
